@@ -433,7 +433,8 @@ mod internal {
         const ON_THE_HEAP: usize = {
             let mut bytes = [255; USIZE_SIZE];
             bytes[USIZE_SIZE - 1] = LastByte::HeapMarker as u8;
-            usize::from_le_bytes(bytes)
+            // native order, like `TAG`: the marker must be the last byte in memory
+            usize::from_ne_bytes(bytes)
         };
 
         pub(super) const fn new(size: usize) -> Result<Self, ReserveError> {
